@@ -126,7 +126,7 @@ class Gen:
         if self.p(0.88):
             s += " " + self.kw("FROM") + " " + ", ".join(self.tref(d) for _ in range(self.n(1, 2)))
             if (self.d == "HIVE" or self.wild) and self.p(0.15):
-                s += " LATERAL VIEW " + self.ch(["", "OUTER "]) + "explode(" + self.nm() + ") v AS " + self.ch(["x1", "x1, x2"])
+                s += " LATERAL VIEW " + self.ch(["", "OUTER "]) + "explode(" + self.nm() + ") " + self.ch(["v", "v", "lv", "`k y`", "`tmp-v`", "`v.1`"]) + " AS " + self.ch(["x1", "x1, x2"])
             for _ in range(self.ch([0, 0, 1, 2])):
                 rule = self.ch(["", " ON " + self.cond(d + 1), " USING(a, b)", " on " + self.cond(d + 1), " using(a)"])
                 # without an alias the parser takes USING as the alias (C03 finding), so the valid stream always gives one
